@@ -33,22 +33,25 @@ import json, math, pickle, functools, struct as _struct, atexit, array as _array
 FUNCTIONAL = False
 LEVEL_TEXT = ("Lean theorems over functools.lru_cache as a list machine (hit: move to front; miss: run the function under the "
               "CURRENT options, store, evict beyond maxsize; exceptions are not stored) and over the eight-cache system with the "
-              "Options singleton and the set_lsb0 method tables: for ALL histories of calls, cache_clears and option assignments, "
-              "and every capacity, every call of a function that reads no option returns the pure result (seven of the eight caches; "
-              "also up to value-equality where Dtype._create keys collide: 2 == 2.0 == True); never more than maxsize entries, no duplicate "
-              "keys; for str_to_bitstore, which reads lsb0 and mxfp_overflow, the cached result equals the pure one for all histories iff "
-              "the setters invalidate (proved for the repaired shape; for the code as pinned a partial theorem on histories without re-use "
-              "of a key across a change of an option it reads, plus decided witnesses of both known deviations and of their dependence on "
-              "eviction); setting an option back restores behaviour; the two extracted set_lsb0 tables re-bind the same 13 attributes, so "
-              "the bound methods are a function of the current lsb0 value. Correspondence: histories of 300-2000 calls over more than 256 "
-              "distinct keys per cache interleaving string construction (four classes, four routes), pack/unpack/readlist formats, Dtype "
-              "creation with colliding scales, Array auto-scale, direct calls of the memoised helpers, option assignments, mutation of and "
-              "method dispatch on earlier results; every call is re-executed on cold caches in-process and in a fresh forked process.")
+              "Options singleton and the set_lsb0 method tables. For ALL histories of calls, cache_clears and option assignments and "
+              "every capacity: never more than maxsize entries, no duplicate keys; every call of a function that reads no option "
+              "returns the pure result (seven of the eight caches; up to value-equality where Dtype._create keys collide, 2 == 2.0 == True); "
+              "for str_to_bitstore, which reads lsb0 and mxfp_overflow, and for the whole system as configured in the working tree "
+              "(setters clear the string cache - re-evaluated on every run as a generated obligation; tables and capacities re-extracted): "
+              "every observation of every history is pure (head_all_pure), results are a function of (current options, arguments) "
+              "(head_option_restore), the two set_lsb0 tables re-bind the same attributes so method dispatch follows the current lsb0 value. "
+              "Decided witnesses document that WITHOUT invalidation purity fails (the two deviations repaired by a428504) and a partial "
+              "theorem says what holds without it. Correspondence: histories of 300-2000 calls over more than 256 distinct keys per cache "
+              "interleaving string construction (four classes, thirteen construction / derivation routes), pack/unpack/readlist formats incl. "
+              "lists of items and keyword lengths, Dtype creation with colliding scales, Array auto-scale, direct calls of the memoised "
+              "helpers, option assignments, mutation of and method dispatch on earlier results; every call is re-executed on cold caches "
+              "in-process and in never-used forked processes (one per option state).")
 LEVEL_NOTE = ("Trusted: Lean kernel (+propext, Classical.choice, Quot.sound); functools.lru_cache behaves as the list machine "
-              "(tied by the correspondence run: the model predicts exactly which calls are served stale, which depends on capacity, "
-              "move-to-front and exceptions not being stored); which option each cached computation reads is transcribed by hand "
-              "and checked only on the strings the generator produces; cached results are values in the model (aliasing is C04). "
-              "Partial: on the pinned tree the two option-flip deviations are recorded known findings, not proved absent.")
+              "(while a setter leaves stale entries the model must predict exactly which calls are served stale - capacity, move-to-front, "
+              "exceptions not stored - and did so on the tree before a428504; with invalidating setters every prediction is 'pure'); which "
+              "option each cached computation reads is transcribed by hand and checked on the generated strings and by re-evaluating the "
+              "memoised helpers under all option settings; cached results are values in the model (aliasing is C04, but mutation of objects "
+              "derived from cached strings is exercised here too). Dtype scale collisions are compared by value on magnitudes below 2**53.")
 TECHNIQUE = "Lean 4 proof (cache invariants by induction over call/option histories) + history correspondence against cold caches and fresh processes"
 
 NOT_YET_PROVED = []
@@ -575,6 +578,13 @@ def execute(line):
     ops = [w.split("|") for w in line.split(SEP)[2:]]
     saved = _get_opts()
     try:
+        # prelude (warm process only): every option is assigned its other value and back.  By the property this
+        # changes nothing; it makes each line self-contained (a binding that set_lsb0 fails to restore shows in this
+        # line, not only after some earlier line flipped the option).
+        o = bitstring.options
+        o.lsb0 = True; o.lsb0 = False
+        o.bytealigned = True; o.bytealigned = False
+        o.mxfp_overflow = "overflow"; o.mxfp_overflow = "saturate"
         _set_opts(DEFAULT_OPTS)
         clear_all()
         # ---- warm pass: the history as written
